@@ -31,6 +31,7 @@ PROFILES = {
     'sig-change': dict(sig_changes=True, sig_after_bar=True, quiet_spines=True),
     'in-split': dict(rejoin_before_bar=False),
     'non-kern': dict(others=True),
+    'early-end': dict(partial_term=True, max_spines=3),
 }
 
 
@@ -100,6 +101,16 @@ def check(case):
             if via != ex:
                 problems.append(Bad('reused-exporter', f'range {a}..{b}: an Exporter object that exported other documents before gives a different excerpt\n--- dumps\n{ex}--- reused Exporter\n{via}', **ctx))
                 continue
+            # the excerpt written with kernpy.dump over a working file that held another (same-size / longer) text
+            if (a + 2 * b) % 4 == 1:
+                try:
+                    filed = K.via_dump_file(kdoc, expect=ex, from_measure=a, to_measure=b, **kw)
+                except Bad as b_:
+                    problems.append(Bad(b_.sig, b_.detail, **ctx))
+                    continue
+                if filed != ex:
+                    problems.append(Bad('dump-file', f'range {a}..{b}: kernpy.dump writes a different text than dumps returns', **ctx))
+                    continue
             # other encodings: still a well-formed document that re-imports, with the encoding's header
             if (a + b) % 3 == 0:
                 for enc, pre in (('ekern', '**e'), ('bekern', '**be')):
@@ -225,7 +236,7 @@ FINDINGS = {'KF-C08-SPLIT': f_split, 'KF-C08-SIGKINDS': f_sigkinds, 'KF-C08-NONK
 def run(ctx):
     n = 24 if ctx.quick else 800
     ctx.run_hypothesis(cases('core'), check, max_examples=n, label='core')
-    for i, prof in enumerate(('sig-change', 'in-split', 'non-kern')):
+    for i, prof in enumerate(('sig-change', 'in-split', 'non-kern', 'early-end')):
         ctx.run_hypothesis(cases(prof), check, max_examples=max(12, n // 3), salt=i + 1, label=prof)
 
 
